@@ -37,6 +37,11 @@ def run(ctx):
     ctx.floor('G-SIG', 8)
     ctx.guard('G-TAB', 'table offsets', check_table_offset, ctx, w)
     ctx.floor('G-TAB', 3)
+    # the segment view finds its string table by walking the sections: an image whose section header table was detached
+    # (e_shoff == 0) must enumerate no sections, whatever stale count the header still carries (rule owned by C19, shared)
+    from props import C19
+    ctx.rule('I-STRIDE0', 'no section/program header table -> no entries')
+    ctx.guard('I-STRIDE0', 'absent tables', C19.check_strides, ctx, w)
     ctx.guard('L-CONF', 'Elf_Dyn', elfconf.check_glibc_struct, ctx, w, 'Elf_Dyn')
     ctx.floor('L-CONF', 8)
     ctx.guard('L-ENUM', 'd_tag', check_tag_tables, ctx, w, ctx.tier == 'thorough')
